@@ -49,6 +49,10 @@ func (v *semaVec) key() string {
 			fmt.Fprintf(&b, "acquire(p%d,%s)", s.P, s.Ctx)
 		case "cancel":
 			fmt.Fprintf(&b, "cancel(p%d)", s.P)
+		case "cancelrelease":
+			fmt.Fprintf(&b, "cancel(p%d)+release", s.P)
+		case "release2":
+			b.WriteString("release+release")
 		default:
 			b.WriteString("release")
 		}
@@ -343,6 +347,44 @@ func replaySema(v *semaVec, line int, wait time.Duration) (o outcome) {
 		}
 	}
 
+	// releaseNow starts n Release calls back to back (without waiting for one
+	// to return before the next is started) and then requires every one of them
+	// to return.  Release is enabled in every state of the specification and
+	// never waits for anybody: a call that is still parked inside syncutil
+	// after `wait` is reported with that wait state as evidence.
+	releaseNow := func(n int) bool {
+		names := make([]string, n)
+		for j := range names {
+			nrel++
+			names[j] = "rel#" + strconv.Itoa(nrel)
+			r.c.goNamed(names[j], func() { r.sem.Release() })
+		}
+		for _, name := range names {
+			s.Step(name) // resumes it; arrival is awaited below
+		}
+		for _, name := range names {
+			if got, _ := s.Poll(name, wait); got != sched.Done {
+				r.c.mu.Lock()
+				id := r.c.gids[name]
+				r.c.mu.Unlock()
+				gs := goroutineState(id.Load())
+				o.class, o.what = "hang", "Release blocks"
+				if gs.blockedInLib() {
+					o.what = fmt.Sprintf("Release does not return: parked in [%s] inside syncutil for %s (Release must never block)", gs.state, wait)
+					o.evidence = true
+				}
+				return false
+			}
+			r.rels++
+			if r.out > 0 {
+				r.out--
+			} else if v.N == 0 {
+				r.credit++
+			}
+		}
+		return true
+	}
+
 steps:
 	for i, st := range v.Steps {
 		o.steps++
@@ -376,21 +418,24 @@ steps:
 				}
 				responder, responded = p, true
 			}
-		case "release":
-			nrel++
-			name := "rel#" + strconv.Itoa(nrel)
-			r.c.goNamed(name, func() { r.sem.Release() })
-			got, _ := r.c.stepExpectArrive(name, wait)
-			note("step %d release: code %s", i+1, got)
-			if got != sched.Done {
-				o.class, o.what = "hang", "Release blocks"
-				break steps
+		case "release", "release2", "cancelrelease":
+			n := 1
+			if st.Ev == "release2" {
+				n = 2 // two Releases racing for the one pending Acquire
 			}
-			r.rels++
-			if r.out > 0 {
-				r.out--
-			} else if v.N == 0 {
-				r.credit = 1
+			if st.Ev == "cancelrelease" {
+				// cancel(p) immediately followed by Release: no pause in between
+				call := r.cur[st.P]
+				if call == nil || call.done {
+					diverged = fmt.Sprintf("step %d: cancel(p%d) but no call of p%d is pending", i+1, st.P, st.P)
+					break steps
+				}
+				call.cc.cancel()
+			}
+			okRel := releaseNow(n)
+			note("step %d %s: Release returned: %v", i+1, st.Ev, okRel)
+			if !okRel {
+				break steps
 			}
 			if len(may) > 0 {
 				q, ok := awaitOne(may)
@@ -577,15 +622,28 @@ func replaySemaCmd(args []string) error {
 			viol++
 			res.Mismatch(v.key(), o.what, o.detail)
 		case "hang":
+			repro := 1
 			for i := 0; i < 2; i++ {
 				o2 := follow()
 				if o2.class != "hang" {
-					internal = fmt.Errorf("sequence %s: %s -- not reproduced on re-run %d (%s)", v.key(), o.what, i+1, o2.class)
-					return nil
+					if !o.evidence {
+						internal = fmt.Errorf("sequence %s: %s -- not reproduced on re-run %d (%s)", v.key(), o.what, i+1, o2.class)
+						return nil
+					}
+					continue
 				}
+				repro++
 			}
 			hangs++
-			res.Mismatch(v.key(), o.what+" (reproduced in 3 of 3 runs, each waiting 10 s)", o.detail)
+			if repro == 3 {
+				res.Mismatch(v.key(), o.what+" (reproduced in 3 of 3 runs, each waiting 10 s)", o.detail)
+			} else {
+				// Whether the call gets stuck depends on a race between goroutines the
+				// harness starts back to back (e.g. the Release and the Acquire that is
+				// leaving); the observation itself is conclusive.
+				res.Mismatch("ChanSemaphore: Release does not return (race-dependent)",
+					o.what+fmt.Sprintf(" (reproduced in %d of 3 runs, each waiting 10 s) sequence: %s", repro, v.key()), o.detail)
+			}
 		}
 		return nil
 	})
